@@ -21,6 +21,9 @@ type c13Case struct {
 	From     []string    `json:"from"`
 	Clauses  []bq.Clause `json:"clauses"`
 	Grouped  bool        `json:"grouped,omitempty"`
+	// Shadow (grouped only): the grouping key is projected AS the name of another pattern
+	// binding, which is itself aggregated: `select ?b as ?a, count(?a) ... group by ?a`
+	Shadow bool `json:"shadow,omitempty"`
 	Choices  []int       `json:"choices"` // drives the construction of the expression from the rows without HAVING
 	Excluded []string    `json:"excluded,omitempty"`
 	// ConstFirst: bit i set = the i-th constant comparison is written `constant op binding`
@@ -69,6 +72,7 @@ func genC13(t *rapid.T) c13Case {
 		c.Excluded = append(c.Excluded, "KF-C03-BINDINGLESS-CLAUSE")
 	}
 	c.Grouped = gen.Maybe(t, 20, "grouped")
+	c.Shadow = c.Grouped && gen.Maybe(t, 35, "shadow")
 	for i := 0; i < 40; i++ {
 		c.Choices = append(c.Choices, gen.Uniform(t, 1000, "choice"))
 	}
@@ -101,6 +105,13 @@ func (c c13Case) base() bq.Query {
 	var q bq.Query
 	q.From, q.Clauses = c.From, c.Clauses
 	all := bq.AllBindings(c.Clauses)
+	if c.Grouped && c.Shadow && len(all) > 1 {
+		q.Proj = append(q.Proj, bq.Proj{Binding: all[1], Alias: all[0]})
+		q.GroupBy = []string{all[0]}
+		q.Proj = append(q.Proj, bq.Proj{Binding: all[0], Alias: "?cnt", Op: "count"})
+		q.Proj = append(q.Proj, bq.Proj{Binding: all[len(all)-1], Alias: "?dst", Op: "countd"})
+		return q
+	}
 	if c.Grouped && len(all) > 0 {
 		q.Proj = append(q.Proj, bq.Proj{Binding: all[0]})
 		q.GroupBy = []string{all[0]}
@@ -463,6 +474,9 @@ func checkC13(ctx *pbt.Ctx, c c13Case) error {
 	walk(expr)
 	if anyMismatch {
 		ctx.Label("different-kind-comparison")
+	}
+	if c.Grouped && c.Shadow {
+		ctx.Label("grouped-alias-shadows-a-binding")
 	}
 	if c.Grouped {
 		ctx.Label("grouped")
